@@ -152,6 +152,10 @@ func runC15(p *Prog, r *Result) {
 	r.Rule("R15a", "nodeByName keys = Node implementors, each mapped to reflect.TypeFor of the same-named syntax type", 43)
 	r.Rule("R15b", "every field reachable from a node type is exported and its kind is handled by both encodeValue and decodeValue; Pos special-cased by identity on both sides", 200)
 	r.Rule("R15c", "operator types: *T implements encoding.TextUnmarshaler and UnmarshalText(String(c)) == c for every declared constant value", 140)
+	r.Rule("R15e", "the decoder's own error returns are decided by the shape of the JSON value, never by comparing a decoded number with a constant", 12)
+	checkDecoderRefusals(p, r, "R15e")
+	r.Rule("R15f", "the encoder writes something for every struct it reaches: the reflect.Struct clause of encodeValue returns a value on every path", 1)
+	checkStructAlwaysEncoded(p, r, "R15f")
 	r.Rule("R15d", "reflect operations on untrusted-shape values in decodeValue/decodePos are dominated by the kind/assignability test that makes them safe", 23)
 
 	// ---- R15a
@@ -755,6 +759,10 @@ func unmarshalTable(info *types.Info, fd *ast.FuncDecl) (map[string]int64, strin
 }
 
 var c15Controls = []Control{
+	{Name: "encoder-drops-empty-structs", Rule: "R15f", WantKey: "case reflect.Struct always returns", File: "syntax/typedjson/json.go",
+		Mutate: ctlReplaceAnywhere("\t\t// Addr helps prevent an allocation as we use any fields.\n", "\t\tif encTyp.NumField() == 3 {\n\t\t\tbreak\n\t\t}\n\t\t// Addr helps prevent an allocation as we use any fields.\n")},
+	{Name: "decoder-rejects-zero-line", Rule: "R15e", WantKey: "decodePos#refusal", File: "syntax/typedjson/json.go",
+		Mutate: ctlReplaceAnywhere("\tval.Set(reflect.ValueOf(syntax.NewPos(nums[0], nums[1], nums[2])))", "\tif nums[1] == 0 {\n\t\treturn fmt.Errorf(\"a position needs a line\")\n\t}\n\tval.Set(reflect.ValueOf(syntax.NewPos(nums[0], nums[1], nums[2])))")},
 	{Name: "registry-drop-TestDecl", Rule: "R15a", WantKey: "TestDecl", File: "syntax/typedjson/json.go",
 		Mutate: ctlReplaceAnywhere("\"TestDecl\":     reflect.TypeFor[syntax.TestDecl](),", "")},
 	{Name: "registry-wrong-type", Rule: "R15a", WantKey: "ParenTest", File: "syntax/typedjson/json.go",
